@@ -126,6 +126,10 @@ func Create(config *Config) func(db *gorm.DB) {
 			if db.Statement.Schema.PrioritizedPrimaryField == nil || !db.Statement.Schema.PrioritizedPrimaryField.HasDefaultValue {
 				return
 			}
+			// the insert id stands for an auto-increment / integer key only, never for a key a default expression generates
+			if pk := db.Statement.Schema.PrioritizedPrimaryField; !pk.AutoIncrement && pk.GORMDataType != schema.Int && pk.GORMDataType != schema.Uint {
+				return
+			}
 			pkField = db.Statement.Schema.PrioritizedPrimaryField
 			pkFieldName = db.Statement.Schema.PrioritizedPrimaryField.DBName
 		}
